@@ -179,6 +179,12 @@ let handle kind a =
       let back = match read_gzi bytes with Some i when i = idx -> "same" | Some _ -> "different" | None -> "Err" in
       let trailing = match read_gzi (bytes @ [n_of_int 0]) with Some _ -> "accepted" | None -> "Err" in
       Some (hex_of_bytes bytes ^ " " ^ back ^ " " ^ trailing)
+  | "gzik" ->
+      (* arbitrary bytes through the kinded gzi reader: the exact io::ErrorKind, or the entries *)
+      Some (match read_gzi_k (bytes_of_hex a.(0)) with
+            | GOk l -> "Ok " ^ fmt_chunks l
+            | GEof -> "Err:UnexpectedEof"
+            | GInvalidData -> "Err:InvalidData")
   | _ -> None
 
 let () = run_driver handle
